@@ -557,6 +557,12 @@ class Sym:
             if a.num is None:
                 a, b = b, a
             k = _const_int(b)
+            if k is None and _const_frac(b) == Fraction(1, 2) and a.d is None:
+                # 0.5 * (p + log(n/d)) = p/2 + log(sqrt(n)/sqrt(d))
+                c = _ctx()
+                sn, sd = c.sqrt_term(a.num), c.sqrt_term(a.den)
+                if sn is not None and sd is not None:
+                    return Sym(a.real() * rv(Fraction(1, 2)), sn, sd)
             if k is None:
                 return _ctx().opaque("mul", a, b)
             if k >= 0:
